@@ -616,11 +616,32 @@ func syncshimFile(abs string) {
 			}
 			n++
 		}
+		if p == "sync/atomic" {
+			im.Path.Value = strconv.Quote("github.com/idena-network/idena-go/verifhook/vatomic")
+			if im.Name == nil {
+				im.Name = ast.NewIdent("atomic")
+			}
+			n++
+		}
 	}
 	if n == 0 {
 		return
 	}
 	var buf bytes.Buffer
 	must(format.Node(&buf, fset, f))
-	writeGen(abs, buf.Bytes())
+	out := buf.Bytes()
+	// blocking channel receives in the instrumented loops become cooperative waits
+	for _, a := range recvAnchors {
+		if strings.HasSuffix(abs, a.file) {
+			if bytes.Count(out, []byte(a.old)) != 1 {
+				fail("syncshim: receive anchor %q not found exactly once in %s", a.old, a.file)
+			}
+			out = bytes.Replace(out, []byte(a.old), []byte(a.new), 1)
+		}
+	}
+	writeGen(abs, out)
+}
+
+var recvAnchors = []struct{ file, old, new string }{
+	{"protocol/pushpull.go", "req := <-holder.PushTracker().Requests()", "req := sync.Recv(holder.PushTracker().Requests()).(pushpull.PendingPulls)"},
 }
